@@ -112,13 +112,19 @@ func c12Run(r *rt.Rec, rng *rand.Rand, n int) {
 		if rng.Intn(3) == 0 {
 			// the plainest single clause: the limit is pushed into the driver
 			cs = []bq.Clause{{S: bq.B("?s1"), P: bq.B("?p1"), O: bq.B("?o1")}}
-			switch rng.Intn(4) {
+			switch rng.Intn(7) {
 			case 0:
 				cs[0].O = bq.B("?s1") // repeated binding drops rows
 			case 1:
 				cs[0].PAt = "?pat1" // extraction drops rows
 			case 2:
 				cs[0].P = bq.PB("p", "?t1")
+			case 3:
+				cs[0].OAs = "?s1" // a binding repeated through an alias drops rows
+			case 4:
+				cs[0].SAs, cs[0].O = "?x1", bq.B("?x1")
+			case 5:
+				cs[0].OType = "?oty1" // extraction that only applies to node objects
 			}
 		}
 		base := gen.SelectAll(cs, graphs)
